@@ -60,6 +60,8 @@ func spec_leafFound(l *leafNode, key []byte) bool { _, f := l.indexOf(key); retu
 //@   loop 1 invariant idx: 0 <= i && uint64(i) == initAt + uint64(tssOff)
 //@   loop 1 decreases timedValuesLen - tssOff
 //@   loop 2 invariant off: 0 <= tssOff && tssOff <= timedValuesLen
+//@   loop 2 invariant base: ti >= uint64(len(lv.timedValues))   # the history log continues the numbering of the in-memory versions
+//@   loop 3 invariant base: ti >= uint64(len(lv.timedValues))
 //@   loop 3 invariant off: 0 <= tssOff && tssOff <= timedValuesLen
 //@   loop 3 invariant idx: 0 <= i
 //@   loop 3 invariant wf: appendable.spec_readerWF(r)
